@@ -14,13 +14,13 @@ def run(tier, seed):
     quick = tier != "thorough"
     lay, tp, st = tables(tier, w)
     # every (section shape x transport shape) case TLC enumerated, with several random server states each
-    r1 = vh(["valve-layouts", "--layouts", lay, "--templates", tp, "--reps", 2 if quick else 60, "--seed", seed], name="c02")
+    r1 = vhr(["valve-layouts", "--layouts", lay, "--templates", tp], 2 if quick else 60, seed, tier, name="c02")
     v.add_report(r1, "layouts x transports")
     # the exchange-level behaviours also compare the decoded response (any field mismatch is a C02 violation)
     mc = [tlc_mc("MC_ValveA2S.tla", "MC_ValveA2S.cfg", workers=8, timeout=1200)] if not quick else []
     b = f"{w}/beh.ndjson"
     g = behaviours("MC_ValveA2S.tla", "Gen_ValveA2S_C09.cfg", b, "c02_beh")
-    r2 = vh(["valve-behaviours", "--layouts", lay, "--templates", tp, "--in", b, "--reps", 1 if quick else 10, "--seed", seed, "--only", PID], name="c02b")
+    r2 = vhr(["valve-behaviours", "--layouts", lay, "--templates", tp, "--in", b, "--only", PID], 1 if quick else 10, seed, tier, name="c02b")
     v.add_report(r2, "exchange behaviours")
     nviol, _ = v.finish()
     cov = std_cov(st + mc + [g], [r1, r2], {
